@@ -168,6 +168,7 @@ class World:
         self._run_id = 0
         self.server_exits = []
         self.on_start = []       # callbacks(world) run after each server start
+        self.on_end = []         # callbacks(world) run when a server incarnation is gone
         _install_capture()
 
     # -- logging
@@ -361,6 +362,8 @@ class World:
         except Exception:
             pass
         self.sim.dead = True     # nothing of the old process may touch storage any more
+        for cb in self.on_end:
+            cb(self)
         return 'exit'
 
     def _after_crash(self):
@@ -371,6 +374,8 @@ class World:
             srv.loop.abandon()
         self.net.reset_server_side()
         self.server_exits.append(('crash', None))
+        for cb in self.on_end:
+            cb(self)
 
     def crash(self):
         """Kill the server process right now (between two scheduling steps)."""
@@ -449,6 +454,18 @@ class World:
                 and bp.reorg_count is None and not bp.state_lock.locked()
                 and not any(x.tag.endswith(('flush_dbs', 'advance_block', 'backup_block'))
                             for x in self.sim.workers))
+
+    def why_not_caught_up(self):
+        srv = self.server
+        if srv is None or srv.bp is None or srv.db is None or srv.bp.state is None:
+            return 'no server / block processor'
+        bp, db = srv.bp, srv.db
+        return dict(bp_caught_up=bp.caught_up, bp_height=bp.state.height,
+                    db_height=db.state.height if db.state else None, daemon=self.daemon.height,
+                    tip_ok=bp.state.tip == self.daemon.tip.hash, reorg_count=bp.reorg_count,
+                    locked=bp.state_lock.locked(), workers=[x.tag for x in self.sim.workers],
+                    blocked=[round(x.blocked_until - self.sim.now, 2) for x in self.sim.workers],
+                    cached_daemon_height=srv.bp.daemon.cached_height())
 
     def new_client(self, name, port=50001, addr=('8.8.4.4', None)):
         return SimClient(self.net, name, port, addr)
